@@ -9,7 +9,11 @@ T2 (fail-closed ast walk):
     * CascadeChecker.validate: the arguments of the certificate Interest and the exception classes caught
       around it; the anchor shortcut precedes the storage lookup; the key is saved only when truthy;
     * lvs_validator: sanity_check() before CascadeChecker(...); union_checker(validate_name, cas_checker);
-      cas_checker.next_level = ret.
+      cas_checker.next_level = ret;
+    * what an instance owns (= what validations that overlap in time share, Model/ValidatorConc.v): the attributes
+      assigned on `self` are configuration + the key storage, no class-level state, `validate` only calls
+      storage.load / storage.save / express_interest / _verify_sig / logger.debug on the instance, the closures of
+      lvs_validator keep no state.
 Anything that does not have exactly the expected shape aborts (exit != 0) and the dependent obligations break.
 """
 import ast
@@ -139,6 +143,43 @@ def validate_facts():
     return facts
 
 
+INSTANCE_STATE = {'app', 'next_level', 'storage', 'anchor_name', 'anchor_key', 'logger'}
+
+
+def instance_state_facts():
+    """What a CascadeChecker instance owns (and validations in flight at the same time therefore share): every
+    attribute assigned on `self` anywhere in the class must be one of the configuration fields or the key storage,
+    class-level assignments must not exist, and the only thing `validate` changes is the storage (one `save`)."""
+    cls = ast.parse(textwrap.dedent(inspect.getsource(CV.CascadeChecker))).body[0]
+    for n in cls.body:
+        if isinstance(n, ast.Assign) or (isinstance(n, ast.AnnAssign) and n.value is not None):
+            abort('CascadeChecker: class-level state ' + ast.unparse(n)[:60])
+    attrs = set()
+    for n in ast.walk(cls):
+        if isinstance(n, ast.Attribute) and isinstance(n.ctx, (ast.Store, ast.Del)) and dotted(n.value) == 'self':
+            attrs.add(n.attr)
+    if not attrs <= INSTANCE_STATE:
+        abort('CascadeChecker: instance state other than configuration and key storage: %s' % sorted(attrs - INSTANCE_STATE))
+    f = fn_ast(CV.CascadeChecker.validate)
+    for n in ast.walk(f):
+        if isinstance(n, ast.Attribute) and isinstance(n.ctx, (ast.Store, ast.Del)):
+            abort('validate: assigns an attribute: ' + ast.unparse(n))
+        if isinstance(n, (ast.Global, ast.Nonlocal)):
+            abort('validate: global / nonlocal state')
+        if isinstance(n, ast.Call) and isinstance(n.func, ast.Attribute) and dotted(n.func).startswith('self.') \
+                and dotted(n.func) not in ('self.logger.debug', 'self.storage.load', 'self.storage.save',
+                                           'self.app.express_interest', 'self._verify_sig'):
+            abort('validate: unexpected call on the instance: ' + dotted(n.func))
+    lv = fn_ast(LV.lvs_validator)
+    inner = [n for n in ast.walk(lv) if isinstance(n, (ast.FunctionDef, ast.AsyncFunctionDef)) and n is not lv]
+    for g in inner:
+        for n in ast.walk(g):
+            if isinstance(n, (ast.Global, ast.Nonlocal)) or \
+                    (isinstance(n, (ast.Attribute, ast.Subscript)) and isinstance(n.ctx, (ast.Store, ast.Del))):
+                abort('lvs_validator.%s keeps state' % g.name)
+    return True
+
+
 def lvs_facts():
     src = inspect.getsource(LV.lvs_validator)
     order = ['sanity_check()\n', 'CascadeChecker(app, trust_anchor, storage)', 'union_checker(validate_name, cas_checker)',
@@ -169,6 +210,7 @@ def main():
     rows = verify_sig_table()
     vf = validate_facts()
     lvs_facts()
+    inst_state = instance_state_facts()
     # does a defaulted storage argument reach a per-instance object?
     cas_shared = default_shared(CV.CascadeChecker.__init__)
     lvs_shared = default_shared(LV.lvs_validator)
@@ -198,6 +240,9 @@ def main():
     out.append(f'Definition fetch_must_be_fresh : bool := {b(kw.get("must_be_fresh") == "True")}.')
     out.append(f'Definition fetch_can_be_prefix : bool := {b(kw.get("can_be_prefix") != "False")}.')
     out.append(f'Definition fetch_validated_by_next_level : bool := {b(kw.get("validator") == "self.next_level")}.')
+    out.append('(* every attribute assigned on a CascadeChecker is configuration or the key storage; validate changes nothing')
+    out.append('   but the storage; the closures of lvs_validator keep no state: overlapping validations share the storage only *)')
+    out.append(f'Definition instance_state_is_storage_only : bool := {b(inst_state)}.')
     sys.stdout.write('\n'.join(out) + '\n')
 
 
